@@ -559,3 +559,201 @@ Proof.
   destruct (wf_msg S root fs); [|discriminate]. inversion Hd; subst m.
   exact (sax_run_ok disallow S junk Hj (nomap_md_ok S Hnm) root md ms fs Hf Hm Hdep).
 Qed.
+
+(* ------------------------------------------------------------------ the strict domain is inside the property's domain *)
+Section StrictLax.
+  Variable d : bool.
+  Variable S : schema.
+
+  Lemma scalar_sl k v pv : denote_scalar true k v = ROk pv -> denote_scalar false k v = ROk pv.
+  Proof.
+    unfold denote_scalar. destruct (ev_of v) as [e|]; [|auto].
+    destruct (denote_leaf k v) as [l| |]; cbn [res_bind]; auto.
+    destruct (leaf_agrees true k e l); [|discriminate]. unfold leaf_agrees. cbn [negb orb]. auto.
+  Qed.
+
+  Lemma key_sl kk s key : denote_key true kk s = ROk key -> denote_key false kk s = ROk key.
+  Proof.
+    unfold denote_key. destruct (kk =? 9); [auto|]. destruct (kk =? 8); [auto|].
+    destruct ((kk =? 5) || (kk =? 3) || (kk =? 13) || (kk =? 4)); [|auto].
+    destruct (parse_int s) as [z|]; [|auto]. cbn [negb orb].
+    destruct (bytes_eqb (fmt_int z) s && scalar_okb kk z); cbn [andb]; [|discriminate].
+    destruct (in_sb _ z); [auto|discriminate].
+  Qed.
+
+  Section Level.
+    Variables rt rf : mdesc -> list (list Z * json) -> res pmsg.
+    Hypothesis Hr : forall md ms fs, rt md ms = ROk fs -> rf md ms = ROk fs.
+
+    Lemma single_sl t v pv : den_single true S rt t v = ROk pv -> den_single false S rf t v = ROk pv.
+    Proof.
+      unfold den_single. destruct t as [k|name]; [apply scalar_sl|].
+      destruct v; auto. destruct (find_msg S name) as [md|]; [|auto].
+      cbn [andb]. destruct (has_known md ms); cbn [negb]; [|discriminate].
+      destruct (rt md ms) as [fs| |] eqn:E; cbn [res_bind]; try discriminate.
+      rewrite (Hr _ _ _ E). cbn [res_bind]. destruct (plen (encode_msg fs) <? 2 ^ 31); cbn [negb]; [auto|discriminate].
+    Qed.
+
+    Lemma elems_sl t xs vs : den_elems true S rt t xs = ROk vs -> den_elems false S rf t xs = ROk vs.
+    Proof.
+      revert vs. induction xs as [|x xs IH]; intros vs; cbn [den_elems]; [auto|].
+      destruct (den_single true S rt t x) as [v| |] eqn:E; cbn [res_bind]; try discriminate.
+      rewrite (single_sl _ _ _ E). cbn [res_bind].
+      destruct (den_elems true S rt t xs) as [vs'| |]; cbn [res_bind]; try discriminate.
+      rewrite (IH _ eq_refl). cbn [res_bind]. auto.
+    Qed.
+
+    Lemma entries_sl kk t ms kvs : den_entries true S rt kk t ms = ROk kvs -> den_entries false S rf kk t ms = ROk kvs.
+    Proof.
+      revert kvs. induction ms as [|[k x] ms IH]; intros kvs; cbn [den_entries]; [auto|].
+      destruct (denote_key true kk k) as [key| |] eqn:Ek; cbn [res_bind]; try discriminate.
+      rewrite (key_sl _ _ _ Ek). cbn [res_bind].
+      destruct (den_single true S rt t x) as [v| |] eqn:E; cbn [res_bind]; try discriminate.
+      rewrite (single_sl _ _ _ E). cbn [res_bind].
+      destruct (den_entries true S rt kk t ms) as [r| |]; cbn [res_bind]; try discriminate.
+      rewrite (IH _ eq_refl). cbn [res_bind]. auto.
+    Qed.
+
+    Lemma field_sl fd v ov : den_field true S rt fd v = ROk ov -> den_field false S rf fd v = ROk ov.
+    Proof.
+      unfold den_field. destruct (fd_label fd) as [|p|kk].
+      - destruct (den_single true S rt (fd_type fd) v) as [pv| |] eqn:E; cbn [res_bind]; try discriminate.
+        rewrite (single_sl _ _ _ E). auto.
+      - destruct v; auto.
+        destruct (den_elems true S rt (fd_type fd) xs) as [vs| |] eqn:E; cbn [res_bind]; try discriminate.
+        rewrite (elems_sl _ _ _ E). cbn [res_bind andb]. destruct vs; [discriminate|].
+        destruct (type_numeric (fd_type fd) && negb (plen (flat_map packed_elem (p0 :: vs)) <? 2 ^ 31)); [discriminate|auto].
+      - destruct v; auto.
+        destruct (den_entries true S rt kk (fd_type fd) ms) as [kvs| |] eqn:E; cbn [res_bind]; try discriminate.
+        rewrite (entries_sl _ _ _ _ E). cbn [res_bind andb]. destruct kvs; [discriminate|].
+        match goal with |- (if negb ?c then _ else _) = _ -> _ => destruct c end; cbn [negb]; [auto|discriminate].
+    Qed.
+
+    Lemma members_sl md ms fs : den_members true d S rt md ms = ROk fs -> den_members false d S rf md ms = ROk fs.
+    Proof.
+      revert fs. induction ms as [|[k v] r IH]; intros fs; cbn [den_members]; [auto|].
+      destruct (find_field_name md k) as [fd|]; [|destruct d; auto].
+      destruct (json_is_null v); [discriminate|]. cbn [andb].
+      destruct (negb ((1 <=? fd_num fd) && (fd_num fd <=? MAX_FIELD_NUMBER))); [discriminate|].
+      destruct (den_field true S rt fd v) as [ov| |] eqn:E; cbn [res_bind]; try discriminate.
+      rewrite (field_sl _ _ _ E). cbn [res_bind].
+      destruct (den_members true d S rt md r) as [fs'| |]; cbn [res_bind]; try discriminate.
+      rewrite (IH _ eq_refl). auto.
+    Qed.
+  End Level.
+
+  Lemma denote_members_sl f : forall md ms fs,
+    denote_members true d S f md ms = ROk fs -> denote_members false d S f md ms = ROk fs.
+  Proof.
+    induction f as [|f IH]; intros md ms fs; cbn [denote_members]; [discriminate|].
+    apply members_sl. exact IH.
+  Qed.
+
+  Theorem strict_in_domain root j m : denote_top true d S root j = ROk m -> pdenote d S root j = ROk m.
+  Proof.
+    unfold pdenote, denote_top. destruct (find_msg S root) as [md|]; [|auto]. destruct j; auto.
+    destruct (denote_members true d S (json_depth (JObj ms)) md ms) as [fs| |] eqn:E; cbn [res_bind]; try discriminate.
+    rewrite (denote_members_sl _ _ _ _ E). auto.
+  Qed.
+End StrictLax.
+
+(* ------------------------------------------------------------------ consequences at the specification level *)
+(* the specified output is accepted by the proved decoder and decodes to exactly the denoted message *)
+Theorem j2p_output_decodes d S root j m fuel :
+  pdenote d S root j = ROk m -> (depth (VMsg m) <= fuel)%nat ->
+  j2p_spec d S root j = ROk (encode_msg m) /\ decode_msg S fuel root (encode_msg m) = Some m.
+Proof.
+  intros Hp Hf. split.
+  - unfold j2p_spec. rewrite Hp. reflexivity.
+  - unfold pdenote, denote_top in Hp. destruct (find_msg S root); [|discriminate]. destruct j; try discriminate.
+    destruct (denote_members false d S (json_depth (JObj ms)) m0 ms) as [fs| |]; cbn [res_bind] in Hp; try discriminate.
+    destruct (wf_msg S root fs) eqn:Hw; [|discriminate]. inversion Hp; subst m.
+    apply decode_encode_msg; assumption.
+Qed.
+
+(* refinement + domain inclusion + decoding, in one statement *)
+Theorem sax_refines_spec_partial_decodes d S root ms m junk fuel :
+  nomap_schema S = true -> (9 <= length junk)%nat ->
+  denote_top true d S root (JObj ms) = ROk m ->
+  (json_depth (JObj ms) <= 256)%nat -> (depth (VMsg m) <= fuel)%nat ->
+  exists b, sax_run d S root junk (events (JObj ms)) = OOk b /\
+            j2p_spec d S root (JObj ms) = ROk b /\ decode_msg S fuel root b = Some m.
+Proof.
+  intros Hn Hj Hd Hdep Hf. exists (encode_msg m).
+  pose proof (strict_in_domain d S root (JObj ms) m Hd) as Hp.
+  destruct (j2p_output_decodes d S root (JObj ms) m fuel Hp Hf) as [H1 H2].
+  split; [exact (sax_refines_spec_partial d S root ms m junk Hn Hj Hd Hdep)|]. split; assumption.
+Qed.
+
+(* kind mismatch: a value whose JSON kind contradicts the field makes the denotation an error, wherever it occurs
+   first in document order *)
+Definition json_kind (v : json) : Z :=
+  match v with JNull => 0 | JBool _ => 1 | JNum _ => 2 | JStr _ => 3 | JArr _ => 4 | JObj _ => 5 end.
+(* the JSON kind a field of that label / type is written with *)
+Definition expected_kind (fd : fdesc) : Z :=
+  match fd_label fd with
+  | LRepeated _ => 4
+  | LMap _ => 5
+  | LSingular =>
+    match fd_type fd with
+    | TMsg _ => 5
+    | TScalar k => if k =? 8 then 1 else if (k =? 9) || (k =? 12) then 3 else 2
+    end
+  end.
+Definition known_kind (k : Z) : bool := is_int_kind k || (k =? 1) || (k =? 2) || (k =? 8) || (k =? 9) || (k =? 12).
+
+Lemma known_kind_cases k : known_kind k = true -> In k [3;4;5;6;7;13;15;16;17;18;1;2;8;9;12].
+Proof.
+  unfold known_kind, is_int_kind. rewrite !orb_true_iff, !Z.eqb_eq. cbn [In]. intuition.
+Qed.
+
+Lemma denote_scalar_mismatch strict k v :
+  known_kind k = true -> json_kind v <> 0 ->
+  json_kind v <> (if k =? 8 then 1 else if (k =? 9) || (k =? 12) then 3 else 2) ->
+  denote_scalar strict k v = RErr.
+Proof.
+  intros Hk H0 Hne. apply known_kind_cases in Hk. cbn [In] in Hk.
+  repeat (destruct Hk as [Hk|Hk]; [subst k; destruct v; cbn in *; solve [reflexivity | congruence]|]).
+  contradiction.
+Qed.
+
+Theorem j2p_rejects_kind_mismatch strict d S rec md k v r fd :
+  find_field_name md k = Some fd ->
+  (strict = false \/ num_ok (fd_num fd)) ->
+  json_kind v <> 0 -> json_kind v <> expected_kind fd ->
+  (match fd_label fd, fd_type fd with LSingular, TScalar kd => known_kind kd = true | _, _ => True end) ->
+  den_members strict d S rec md ((k, v) :: r) = RErr.
+Proof.
+  intros Hf Hn H0 Hne Hk. cbn [den_members]. rewrite Hf.
+  assert (Hnull : json_is_null v = false) by (destruct v; cbn in *; congruence). rewrite Hnull.
+  assert (Hnum : (strict && negb ((1 <=? fd_num fd) && (fd_num fd <=? MAX_FIELD_NUMBER))) = false).
+  { destruct Hn as [Hs|Hs]; [subst; reflexivity|]. unfold num_ok in Hs. rewrite Hs. apply andb_false_r. }
+  rewrite Hnum.
+  assert (Hfld : den_field strict S rec fd v = RErr).
+  { unfold den_field, expected_kind in *. destruct (fd_label fd).
+    - unfold den_single. destruct (fd_type fd) as [kd|name].
+      + rewrite denote_scalar_mismatch; auto.
+      + destruct v; cbn in *; congruence.
+    - destruct v; cbn in *; congruence.
+    - destruct v; cbn in *; congruence. }
+  rewrite Hfld. reflexivity.
+Qed.
+
+(* unknown members: skipped iff allowed, an error iff disallowed *)
+Theorem j2p_unknown_member strict S rec md k v r :
+  find_field_name md k = None ->
+  den_members strict false S rec md ((k, v) :: r) = den_members strict false S rec md r /\
+  den_members strict true S rec md ((k, v) :: r) = RErr.
+Proof. intro Hf. cbn [den_members]. rewrite Hf. split; reflexivity. Qed.
+
+(* the machine does the same: the unknown member's value (any JSON) is consumed without effect, or the run fails *)
+Theorem sax_unknown_member S junk md k v stk glob buf top :
+  obj_frame S top md -> find_field_name md k = None ->
+  J2P.run false S junk (member_events (k, v)) (mk_st (top :: stk) glob false O buf) = MOk (mk_st (top :: stk) glob false O buf) /\
+  J2P.run true S junk (member_events (k, v)) (mk_st (top :: stk) glob false O buf) = MErr.
+Proof.
+  intros Hof Hf. unfold member_events. cbn [fst snd]. split.
+  - rewrite run_cons, (on_key_obj false S junk top md k stk glob buf Hof). unfold lookup_member. rewrite Hf.
+    unfold set_inskip. cbn [m_stk m_glob m_buf m_inskip m_skipd]. apply skip_value.
+  - rewrite run_cons, (on_key_obj true S junk top md k stk glob buf Hof). unfold lookup_member. rewrite Hf. reflexivity.
+Qed.
